@@ -1,6 +1,8 @@
 package main
 
 import (
+	"bytes"
+	"encoding/gob"
 	"encoding/json"
 	"fmt"
 	"math"
@@ -810,6 +812,47 @@ func classifyDiffC14(kind string, d wire.Difference) string {
 
 var c14Kinds = []string{"swagger", "operation", "parameter", "schema", "response"}
 
+// kinds whose values replace the destination wholesale when they arrive: the ones that bring a GobDecode of their
+// own (Swagger, Operation). The plain structs (schema, parameter, response) are filled in by encoding/gob itself,
+// which leaves what the stream does not mention as it was in the destination - documented gob behaviour, on the
+// unchanged tree too, and no part of what C14 states; they are streamed into fresh destinations only.
+var c14Streamed = map[string]bool{"swagger": true, "operation": true}
+
+// gobStream sends two values of one kind through ONE gob stream and reads both back into the SAME destination
+// (`var doc T; for dec.Decode(&doc) == nil { ... }`): what the destination held before is no part of what arrives.
+func gobStream(kind string, first, second []byte) (want, got []byte, err error, panicked string) {
+	panicked = safely(func() {
+		v1, v2 := goKinds[kind](), goKinds[kind]()
+		if err = json.Unmarshal(first, v1); err != nil {
+			return
+		}
+		if err = json.Unmarshal(second, v2); err != nil {
+			return
+		}
+		if want, err = json.Marshal(v2); err != nil {
+			return
+		}
+		var buf bytes.Buffer
+		enc := gob.NewEncoder(&buf)
+		if err = enc.Encode(v1); err != nil {
+			return
+		}
+		if err = enc.Encode(v2); err != nil {
+			return
+		}
+		dec := gob.NewDecoder(&buf)
+		w := goKinds[kind]()
+		if err = dec.Decode(w); err != nil {
+			return
+		}
+		if err = dec.Decode(w); err != nil {
+			return
+		}
+		got, err = json.Marshal(w)
+	})
+	return
+}
+
 func runC14(c *Ctx) {
 	v := loadVocab(c)
 	c.Res.Rule = "normal-form documents as in C01 plus empty/absent/non-empty security requirements, free-form payloads with nulls and empty containers, zero-valued validations; gob encode+decode of the decoded value, JSON encodings before/after compared as values; references through Ref.GobEncode; non-trivial = document with at least two members; distinct by document"
@@ -857,6 +900,39 @@ func runC14(c *Ctx) {
 		sig, what := sigOfDiffs("C14", kind, wire.Diff(a, b), classifyDiffC14)
 		c.Fail(Failure{Kind: "oracle", Sig: sig, What: "JSON encoding differs after gob transport: " + what, Case: cs, Impl: clip(string(before)), Model: clip(string(after))})
 	}
+	previous := map[string]wire.V{}
+	stream := func(kind string, doc wire.V) {
+		prev, ok := previous[kind]
+		previous[kind] = doc
+		if !ok || !c14Streamed[kind] {
+			return
+		}
+		cs := map[string]interface{}{"kind": kind, "how": "two values through one gob stream, read into the same destination", "first": json.RawMessage(prev.Text()), "doc": json.RawMessage(doc.Text())}
+		want, got, err, pan := gobStream(kind, []byte(prev.Text()), []byte(doc.Text()))
+		c.Hit("stream:" + kind)
+		if pan != "" {
+			c.Fail(Failure{Kind: "crash", Sig: "C14:stream-panic", What: "panic: " + pan, Case: cs})
+			return
+		}
+		if err != nil {
+			return // a value that cannot be decoded or sent is the business of the single-value check
+		}
+		a, e1 := wire.Parse(want)
+		b, e2 := wire.Parse(got)
+		if e1 != nil || e2 != nil {
+			return
+		}
+		// what a single transport of the second value loses (known findings) is lost here as well: compare with that
+		if _, single, e3, p3 := gobRoundTrip(kind, []byte(doc.Text())); e3 == nil && p3 == "" {
+			if sv, e4 := wire.Parse(single); e4 == nil {
+				a = sv
+			}
+		}
+		if a.Canon() != b.Canon() {
+			sig, what := sigOfDiffs("C14", kind, wire.Diff(a, b), func(string, wire.Difference) string { return "stream" })
+			c.Fail(Failure{Kind: "oracle", Sig: sig, What: "the second value of a gob stream, read into the destination that held the first, differs from the value sent: " + what, Case: cs, Impl: clip(string(got)), Model: clip(string(want))})
+		}
+	}
 	for i := 0; i < n; i++ {
 		kind := c14Kinds[c.Intn(len(c14Kinds))]
 		doc := g.Kind(kind, 1+c.Intn(3))
@@ -877,6 +953,9 @@ func runC14(c *Ctx) {
 			}
 		}
 		check(kind, doc, "random")
+		if i%3 == 0 {
+			stream(kind, doc)
+		}
 		if len(c.Res.Samples) < 3 && doc.Size() > 12 {
 			c.Sample(map[string]interface{}{"kind": kind, "doc": json.RawMessage(doc.Text())})
 		}
